@@ -1,6 +1,6 @@
 """C01 - parse -> serialise -> parse is stable and lossless.
 
-Decided (structural necessary conditions): ATTACH, NEST, NAME, CODEC,
+Decided (structural necessary conditions): PARSE-MODEL, EMIT-MODEL, NAME, CODEC,
 TEXT-STABLE, LAYOUT (shared with C03).  Not decided: equality of typed values
 for every accepted text; nesting depth; numeric round trip of non-TEXT codecs.
 """
@@ -62,18 +62,17 @@ def parse_loop(ctx):
 def run(ctx):
     m = ctx.model
     ctx.explanation = (
-        "must-pass-through of `.params = params` between decoding and "
-        "component.add in the parse loop; typestate of the component stack "
-        "(push on BEGIN, guarded pop and attach-or-collect on END); unknown "
-        "components keep their upper-cased name; registry closure of "
+        "abstract interpretation (E7) of the parse loop on all short sequences "
+        "of abstract lines (component stack, parameter attachment, unknown "
+        "component names, value accumulation) and of property_items/to_ical on "
+        "abstract trees, compared with the statement; registry closure of "
         "types_map/TypesFactory; Parse∘Emit∘Parse = Parse for TEXT and "
         "idempotence of the wire rewriting for identity codecs as transducer "
         "equivalences on the clean domain; writer/reader field layouts of "
         "the fixed-width codecs.")
-    pl = parse_loop(ctx)
-    _attach(ctx, pl)
-    _nest(ctx, pl)
-    _name(ctx, pl)
+    _parse_model(ctx)
+    _emit_model(ctx)
+    _registry_names(ctx)
     _codec(ctx)
     _text_stable(ctx)
     from .c03 import layout_rule
@@ -81,296 +80,46 @@ def run(ctx):
 
 
 # ---------------------------------------------------------------------------
-def _attach(ctx, pl):
-    fi = pl["fi"]
-    adds = [c for st in pl["prop"] for c in ast.walk(st)
-            if isinstance(c, ast.Call) and isinstance(c.func, ast.Attribute)
-            and c.func.attr == "add"
-            and any(k.arg == "encode" and isinstance(k.value, ast.Constant)
-                    and not k.value.value for k in c.keywords)]
-    if len(adds) != 1:
-        raise AnalysisError(f"from_ical: expected one component.add(..., encode=0), found {len(adds)}")
-    add = adds[0]
-    val = add.args[1]
-    if not isinstance(val, ast.Name):
-        raise AnalysisError("from_ical: added value is not a simple name")
-    # enclosing block of the add statement
-    blocks = []
-
-    def find(stmts):
-        for i, st in enumerate(stmts):
-            if isinstance(st, ast.Expr) and st.value is add:
-                blocks.append((stmts, i))
-            for fld in ("body", "orelse", "finalbody"):
-                if hasattr(st, fld):
-                    find(getattr(st, fld))
-            if isinstance(st, ast.Try):
-                for h in st.handlers:
-                    find(h.body)
-    find(pl["prop"])
-    stmts, idx = blocks[0]
-    stored = None
-    for st in stmts[:idx]:
-        if isinstance(st, ast.Assign) and isinstance(st.targets[0], ast.Attribute) \
-                and st.targets[0].attr == "params" \
-                and isinstance(st.targets[0].value, ast.Name) \
-                and st.targets[0].value.id == val.id:
-            stored = st
-    between_exit = any(isinstance(n, (ast.Continue, ast.Break, ast.Return))
-                       for st in stmts[:idx] for n in ast.walk(st))
-    ok = stored is not None and isinstance(stored.value, ast.Name) \
-        and stored.value.id == pl["params"] and not between_exit
-    ctx.check(ok, "C01/ATTACH", "params stored on every decoded value",
-              "the parameters parsed from the line must be stored on the decoded "
-              "value (`value.params = params`) on every path before "
-              "component.add(name, value, encode=0)", fi.loc(add),
-              detail=f"{val.id}.params = {pl['params']} precedes add()")
-    # name passed to add is the parsed name
-    ctx.check(isinstance(add.args[0], ast.Name) and add.args[0].id == pl["name"],
-              "C01/ATTACH", "property stored under its parsed name",
-              "component.add must be called with the name parsed from the line",
-              fi.loc(add), detail=f"add({pl['name']}, …)")
-    # every decoded value comes from factory(factory.from_ical(...)) and all
-    # elements of the list are added (loop without filter)
-    loops = [n for st in pl["prop"] for n in ast.walk(st) if isinstance(n, ast.For)
-             and isinstance(n.target, ast.Name) and n.target.id == val.id]
-    good = False
-    if loops:
-        lp = loops[0]
-        src = lp.iter.id if isinstance(lp.iter, ast.Name) else None
-        assigns = [n for st in pl["prop"] for n in ast.walk(st)
-                   if isinstance(n, ast.Assign) and isinstance(n.targets[0], ast.Name)
-                   and n.targets[0].id == src]
-        shapes = []
-        for a in assigns:
-            v = a.value
-            elt = v.elt if isinstance(v, ast.ListComp) else (v.elts[0] if isinstance(v, ast.List) and len(v.elts) == 1 else None)
-            shapes.append(elt is not None and isinstance(elt, ast.Call)
-                          and isinstance(elt.func, ast.Name)
-                          and len(elt.args) == 1 and isinstance(elt.args[0], ast.Call)
-                          and isinstance(elt.args[0].func, ast.Attribute)
-                          and elt.args[0].func.attr == "from_ical"
-                          and isinstance(elt.args[0].func.value, ast.Name)
-                          and elt.args[0].func.value.id == elt.func.id)
-        good = bool(assigns) and all(shapes) and not any(
-            isinstance(n, (ast.If, ast.Continue, ast.Break)) for n in lp.body)
-        ctx.extra["decode_sites"] = len(assigns)
-    ctx.check(good, "C01/ATTACH", "every decoded value is added",
-              "each value decoded from the line (factory(factory.from_ical(text))) "
-              "must be added; the adding loop must not filter", fi.loc(add),
-              detail="for v in parsed: v.params = params; component.add(name, v, encode=0)")
-    # the factory is chosen by the property name
-    fac = [n for st in pl["prop"] for n in ast.walk(st) if isinstance(n, ast.Assign)
-           and isinstance(n.value, ast.Call) and isinstance(n.value.func, ast.Attribute)
-           and n.value.func.attr == "for_property"]
-    ctx.check(len(fac) == 1 and isinstance(fac[0].value.args[0], ast.Name)
-              and fac[0].value.args[0].id == pl["name"], "C01/ATTACH",
-              "value class chosen by property name",
-              "the decoder must be types_factory.for_property(<parsed name>)",
-              fi.loc(), detail="factory = types_factory.for_property(name)")
-    # emission side: content_line reads params from the value
-    cl = pl["comp"].methods.get("content_line")
-    if cl is None:
-        raise AnalysisError("anchor vanished: Component.content_line")
-    env = SymEnv(cl.node)
-    rets = [n for n in walk_no_nested(cl.node) if isinstance(n, ast.Return)]
-    okc = False
-    for r in rets:
-        e = env.expand_at(r.value, r)
-        if isinstance(e, ast.Call) and isinstance(e.func, ast.Attribute) \
-                and e.func.attr == "from_parts" and len(e.args) >= 3:
-            p = e.args[1]
-            okc = (isinstance(p, ast.Call) and isinstance(p.func, ast.Name)
-                   and p.func.id == "getattr" and is_param(p.args[0], cl.params[2])
-                   and isinstance(p.args[1], ast.Constant) and p.args[1].value == "params"
-                   and is_param(e.args[0], cl.params[1]) and is_param(e.args[2], cl.params[2]))
-    ctx.check(okc, "C01/ATTACH", "serialisation re-emits value.params",
-              "Component.content_line must pass the value's own `params` (and "
-              "the name and value unchanged) to Contentline.from_parts", cl.loc(),
-              detail="from_parts(name, getattr(value,'params',Parameters()), value)")
+def _parse_model(ctx):
+    """The parse loop interpreted (E7) on every short sequence of abstract
+    lines and compared with the reference parse of the statement: nesting,
+    attachment of parameters, names of unknown components, value splitting and
+    accumulation, single/multiple result.  Only inputs without undecodable
+    lines are C01's business (C04 takes the others); letter-case-only
+    deviations belong to C09 and TZID forwarding to C11/C02."""
+    from .. import parseloop
+    parseloop.report(
+        ctx, "C01/PARSE-MODEL",
+        lambda d: not d["has_bad"] and d["exp"][0][0] == "ok"
+        and d["cause"] not in ("TZID forwarding differs", "VTIMEZONE caching differs"),
+        "nesting, names, parameters and values recovered from every line sequence",
+        laws=("BEGIN pushes one new component of the registered class",
+              "unknown component keeps its upper-cased name",
+              "END pops one component: attached to its parent or collected at top level",
+              "parameters of the line stored on every decoded value",
+              "every decoded value added under its parsed name, in order",
+              "comma-separated FREEBUSY values each decoded",
+              "multiple=True returns all top-level components, else the only one"))
 
 
-# ---------------------------------------------------------------------------
-def _nest(ctx, pl):
-    fi = pl["fi"]
-    # stack / result variables: lists created empty before the loop
-    inits = {}
-    for st in body_without_docstring(fi.node):
-        if st is pl["loop"]:
-            break
-        if isinstance(st, ast.Assign) and isinstance(st.value, ast.List) and not st.value.elts:
-            inits[st.targets[0].id] = st
-    # BEGIN: exactly one append of a freshly constructed component on a list
-    pushes = [c for st in pl["begin"] for c in ast.walk(st)
-              if isinstance(c, ast.Call) and isinstance(c.func, ast.Attribute)
-              and c.func.attr == "append" and isinstance(c.func.value, ast.Name)
-              and c.func.value.id in inits]
-    if len(pushes) != 1:
-        ctx.fail("C01/NEST", "BEGIN pushes exactly one component",
-                 f"the BEGIN branch performs {len(pushes)} pushes", fi.loc())
-        return
-    stack = pushes[0].func.value.id
-    pushed = pushes[0].args[0]
-    created = [n for st in pl["begin"] for n in ast.walk(st) if isinstance(n, ast.Assign)
-               and isinstance(n.targets[0], ast.Name) and isinstance(pushed, ast.Name)
-               and n.targets[0].id == pushed.id and isinstance(n.value, ast.Call)]
-    top_level_push = any(isinstance(st, ast.Expr) and st.value is pushes[0] for st in pl["begin"])
-    ctx.check(bool(created) and top_level_push, "C01/NEST",
-              "BEGIN pushes exactly one component",
-              "every BEGIN line must push one freshly created component, "
-              "unconditionally", fi.loc(pushes[0]),
-              detail=f"{stack}.append(<new component>)")
-    # END
-    end = pl["end"]
-    guard = None
-    pop_i = None
-    for i, st in enumerate(end):
-        if isinstance(st, ast.If) and isinstance(st.test, ast.UnaryOp) \
-                and isinstance(st.test.op, ast.Not) and isinstance(st.test.operand, ast.Name) \
-                and st.test.operand.id == stack and st.body \
-                and isinstance(st.body[-1], ast.Raise) and guard is None and pop_i is None:
-            exc = st.body[-1].exc
-            guard = (i, exc.func.id if isinstance(exc, ast.Call) and isinstance(exc.func, ast.Name) else None)
-        if isinstance(st, ast.Assign) and isinstance(st.value, ast.Call) \
-                and isinstance(st.value.func, ast.Attribute) and st.value.func.attr == "pop" \
-                and isinstance(st.value.func.value, ast.Name) \
-                and st.value.func.value.id == stack and not st.value.args:
-            pop_i = i
-            popped = st.targets[0].id
-    ctx.check(guard is not None and pop_i is not None and guard[0] < pop_i
-              and guard[1] == "ValueError", "C01/NEST", "END on empty stack raises ValueError",
-              "an END without an open BEGIN must raise ValueError before "
-              "stack.pop()", fi.loc(end[0]), detail="if not stack: raise ValueError")
-    if pop_i is None:
-        ctx.fail("C01/NEST", "END pops one component", "no stack.pop() in the END branch", fi.loc(end[0]))
-        return
-    npops = sum(1 for st in end for c in ast.walk(st) if isinstance(c, ast.Call)
-                and isinstance(c.func, ast.Attribute) and c.func.attr == "pop"
-                and isinstance(c.func.value, ast.Name) and c.func.value.id == stack)
-    ctx.check(npops == 1, "C01/NEST", "END pops one component",
-              f"the END branch pops {npops} components", fi.loc(end[pop_i]),
-              detail="component = stack.pop()")
-    # after the pop: if not stack: result.append(c) else: stack[-1].add_component(c)
-    attach = None
-    for st in end[pop_i + 1:]:
-        if isinstance(st, ast.If) and isinstance(st.test, ast.UnaryOp) \
-                and isinstance(st.test.operand, ast.Name) and st.test.operand.id == stack:
-            attach = st
-            break
-        if any(isinstance(n, (ast.Continue, ast.Break, ast.Return)) for n in ast.walk(st)):
-            break
-    ok_collect = ok_attach = False
-    result = None
-    if attach is not None and len(attach.body) == 1 and len(attach.orelse) == 1:
-        b, o = attach.body[0], attach.orelse[0]
-        if isinstance(b, ast.Expr) and isinstance(b.value, ast.Call) \
-                and isinstance(b.value.func, ast.Attribute) and b.value.func.attr == "append" \
-                and isinstance(b.value.func.value, ast.Name) and b.value.func.value.id in inits \
-                and b.value.func.value.id != stack \
-                and isinstance(b.value.args[0], ast.Name) and b.value.args[0].id == popped:
-            ok_collect = True
-            result = b.value.func.value.id
-        if isinstance(o, ast.Expr) and isinstance(o.value, ast.Call) \
-                and isinstance(o.value.func, ast.Attribute) \
-                and o.value.func.attr == "add_component" \
-                and isinstance(o.value.func.value, ast.Subscript) \
-                and isinstance(o.value.func.value.value, ast.Name) \
-                and o.value.func.value.value.id == stack \
-                and dump(o.value.func.value.slice) == "-1" \
-                and isinstance(o.value.args[0], ast.Name) and o.value.args[0].id == popped:
-            ok_attach = True
-    ctx.check(ok_collect, "C01/NEST", "top-level component is collected",
-              "a component closed at depth 0 must be appended to the result list",
-              fi.loc(end[pop_i]), detail="if not stack: comps.append(component)")
-    ctx.check(ok_attach, "C01/NEST", "nested component attached to its parent",
-              "a component closed at depth > 0 must be attached to the new top "
-              "of the stack (stack[-1].add_component(component))",
-              fi.loc(end[pop_i]), detail="stack[-1].add_component(component)")
-    # add_component appends to subcomponents
-    ac = pl["comp"].methods.get("add_component")
-    okac = ac is not None and any(
-        isinstance(c, ast.Call) and isinstance(c.func, ast.Attribute)
-        and c.func.attr == "append" and isinstance(c.func.value, ast.Attribute)
-        and c.func.value.attr == "subcomponents"
-        and isinstance(c.args[0], ast.Name) and c.args[0].id == ac.params[1]
-        for c in ast.walk(ac.node))
-    ctx.check(okac, "C01/NEST", "add_component appends in order",
-              "add_component must append the component to self.subcomponents",
-              ac.loc() if ac else fi.loc(), detail="self.subcomponents.append(component)")
-    # the `multiple` flag only selects between the list and its single element
-    after = []
-    seen = False
-    for st in body_without_docstring(fi.node):
-        if seen:
-            after.append(st)
-        if st is pl["loop"]:
-            seen = True
-    rets = [n for st in after for n in ast.walk(st) if isinstance(n, ast.Return)]
-    good = len(rets) == 2 and result is not None
-    if good:
-        r_multi = [r for r in rets if isinstance(r.value, ast.Name) and r.value.id == result]
-        r_single = [r for r in rets if isinstance(r.value, ast.Subscript)
-                    and isinstance(r.value.value, ast.Name) and r.value.value.id == result
-                    and dump(r.value.slice) == "0"]
-        good = len(r_multi) == 1 and len(r_single) == 1
-    ctx.check(good, "C01/NEST", "multiple selects list or single element",
-              "from_ical must return the collected list (multiple=True) or its "
-              "only element", fi.loc(), detail="return comps / return comps[0]")
-    raises = [n for st in after for n in ast.walk(st) if isinstance(n, ast.Raise)]
-    ctx.check(len(raises) == 2 and all(
-        isinstance(r.exc, ast.Call) and isinstance(r.exc.func, ast.Name)
-        and r.exc.func.id == "ValueError" for r in raises), "C01/NEST",
-        "wrong component count is a ValueError",
-        "0 or >1 top-level components (single mode) must raise ValueError",
-        fi.loc(), detail="2 raises of ValueError")
+def _emit_model(ctx):
+    """Emission side (E7 on abstract trees): BEGIN/END carry the component
+    name, every stored value is emitted once under its name with its own
+    parameters."""
+    from .. import treemodel
+    treemodel.report(ctx, "C01/EMIT-MODEL", treemodel.explore_emit,
+                     "serialisation re-emits names, values and value.params",
+                     ctx.model.func("cal.Component.property_items").loc(), 200)
 
 
-# ---------------------------------------------------------------------------
-def _name(ctx, pl):
+def _registry_names(ctx):
     m = ctx.model
-    fi = pl["fi"]
-    begin = pl["begin"]
-    # c_name = vals.upper(); component.name = c_name when the class has none
-    folded = None
-    for st in begin:
-        if isinstance(st, ast.Assign) and isinstance(st.value, ast.Call) \
-                and isinstance(st.value.func, ast.Attribute) and st.value.func.attr == "upper" \
-                and isinstance(st.value.func.value, ast.Name) \
-                and st.value.func.value.id == pl["vals"]:
-            folded = st.targets[0].id
-    sets = [n for st in begin for n in ast.walk(st) if isinstance(n, ast.Assign)
-            and isinstance(n.targets[0], ast.Attribute) and n.targets[0].attr == "name"]
-    push_line = max((c.lineno for st in begin for c in ast.walk(st)
-                     if isinstance(c, ast.Call) and isinstance(c.func, ast.Attribute)
-                     and c.func.attr == "append"), default=0)
-    ok = folded is not None and len(sets) == 1 and isinstance(sets[0].value, ast.Name) \
-        and sets[0].value.id == folded and sets[0].lineno < push_line
-    ctx.check(ok, "C01/NAME", "unknown component keeps its name",
-              "a component created for an unknown BEGIN value must get "
-              "name = <upper-cased BEGIN value> before it is pushed (needed to "
-              "re-emit BEGIN:<name>/END:<name>)", fi.loc(begin[0]),
-              detail="component.name = vals.upper()")
-    look = [c for st in begin for c in ast.walk(st) if isinstance(c, ast.Call)
-            and isinstance(c.func, ast.Attribute) and c.func.attr == "get"
-            and isinstance(c.func.value, ast.Name) and c.func.value.id == "component_factory"]
-    ctx.check(len(look) == 1 and len(look[0].args) == 2
-              and isinstance(look[0].args[1], ast.Name) and look[0].args[1].id == "Component",
-              "C01/NAME", "unknown names fall back to Component",
-              "component_factory.get(name, Component) must fall back to the "
-              "generic Component", fi.loc(), detail="get(c_name, Component)")
     for key, (ci, node) in m.component_registry().items():
         cname = m.class_const(ci, "name")
         ctx.check(cname == key, "C01/NAME", f"registry {key}",
                   f"component_factory[{key!r}] = {ci.name} but {ci.name}.name = "
                   f"{cname!r}: BEGIN:{key} re-serialises as BEGIN:{cname}",
                   ci.loc(), detail=f"{ci.name}.name == {key!r}")
-    # property_items emits BEGIN/END with self.name
-    pi = pl["comp"].methods.get("property_items")
-    src = dump(pi.node)
-    ctx.check(src.count("self.name") >= 2 and "'BEGIN'" in src and "'END'" in src,
-              "C01/NAME", "BEGIN/END emitted from self.name",
-              "property_items must emit BEGIN and END with self.name", pi.loc(),
-              detail="('BEGIN', self.name) … ('END', self.name)")
 
 
 # ---------------------------------------------------------------------------
